@@ -11,11 +11,27 @@
     reader is positioned at the next member;
   * out-of-range unknown keys cannot be mistaken for known ones: `read_integer` saturates
     (`C07.readNegative_saturates`, `big_key_not_small`).
-  The struct-level statement (same preamble/blocks/records) is decided on the implementation
-  by rewriting exporter-produced files with random compositions of the rewrites and comparing
-  the reader's result, and cross-checked with the independent Lean reader.
+
+  Proved here (struct level, for the generic interpreter `Model.Schema` of the struct readers and
+  every schema – the file-preamble tree is the instance `Model.Structs.filePreamble`):
+  * `read_denotes`: on EVERY well-formed encoding `i` the byte-level reader returns the
+    denotation `denote k i` – a function of the data only (members looked up by key, widths /
+    definite-vs-indefinite / chunking invisible, unknown members ignored) – and stops exactly
+    behind the item; `read_denotes_linear`: a fuel linear in the input suffices;
+  * hence `equivalent_encodings_read_equal`: two well-formed encodings with the same
+    denotation are read as the same value;
+  * each rewrite of the property preserves the denotation, at any depth:
+    head widths (`width_*`), definite ↔ indefinite (`indef_*`), chunked strings (`chunked_*`),
+    unknown members with ANY value (`unknown_member_ignored`), permutation of map members with
+    distinct keys (`member_order_irrelevant`), and congruence for nested members
+    (`nested_array`, `nested_members`).
+  The block/record structs are not yet instances of the schema table: for them the struct-level
+  statement is decided on the implementation by rewriting exporter-produced files with random
+  compositions of the rewrites and comparing the reader's result, cross-checked with the
+  independent Lean reader; the same rewritten files drive the model reader (`sch` driver).
 -/
-import CdnsVerif.Props.C07
+import CdnsVerif.Proofs.Rewrite
+import CdnsVerif.Model.Structs
 
 namespace CdnsVerif.Props.C08
 open CdnsVerif.Spec.Cbor CdnsVerif.Model CdnsVerif.Model.Decoder
@@ -55,5 +71,121 @@ theorem big_key_not_small (w : Width) (n : Nat) (h : w.fits n) (hn : 2 ^ 63 ≤ 
   have : n > int64Max := by unfold int64Max; omega
   unfold int64Max at this
   simp [int64Max, this]
+
+/-! ## struct level -/
+
+open CdnsVerif.Model.Schema
+
+/-- The byte-level struct reader computes the denotation of every well-formed encoding. -/
+theorem read_denotes (k : Kind) (i : Item) (v : Val) (hwf : i.WF) (hd : denote k i = some v)
+    (fuel : Nat) (hf : steps i + cfuel i ≤ fuel) (rest : Bytes) :
+    (readVal fuel k).run (i.enc ++ rest) = .ok (v, rest) :=
+  (rd_all fuel).1 k i v rest hwf hd hf
+
+/-- a fuel linear in the input always suffices -/
+theorem read_denotes_linear (k : Kind) (i : Item) (v : Val) (hwf : i.WF) (hd : denote k i = some v) (rest : Bytes) :
+    (readVal (4 * (i.enc ++ rest).length) k).run (i.enc ++ rest) = .ok (v, rest) := by
+  apply read_denotes k i v hwf hd
+  have := steps_le i
+  have := cfuel_le i
+  simp only [List.length_append]; omega
+
+/-- Two well-formed encodings that denote the same data are read as the same value – whatever
+    their head widths, container/string forms, member order and unknown members are. -/
+theorem equivalent_encodings_read_equal (k : Kind) (i₁ i₂ : Item) (v : Val) (h₁ : i₁.WF) (h₂ : i₂.WF)
+    (hv : denote k i₁ = some v) (heq : denote k i₁ = denote k i₂) (fuel : Nat)
+    (hf₁ : steps i₁ + cfuel i₁ ≤ fuel) (hf₂ : steps i₂ + cfuel i₂ ≤ fuel) (r₁ r₂ : Bytes) :
+    ((readVal fuel k).run (i₁.enc ++ r₁)).map (·.1) = ((readVal fuel k).run (i₂.enc ++ r₂)).map (·.1) := by
+  rw [read_denotes k i₁ v h₁ hv fuel hf₁, read_denotes k i₂ v h₂ (heq ▸ hv) fuel hf₂]
+  rfl
+
+/-! ### each rewrite of the property preserves the denotation -/
+
+theorem width_uint (k : Kind) (w w' : Width) (n : Nat) : denote k (.uint w n) = denote k (.uint w' n) := denote_uint_width k w w' n
+theorem width_nint (k : Kind) (w w' : Width) (n : Nat) : denote k (.nint w n) = denote k (.nint w' n) := denote_nint_width k w w' n
+theorem width_tstr (k : Kind) (w w' : Width) (b : Bytes) : denote k (.tstr w b) = denote k (.tstr w' b) := denote_tstr_width k w w' b
+theorem width_bstr (k : Kind) (w w' : Width) (b : Bytes) : denote k (.bstr w b) = denote k (.bstr w' b) := denote_bstr_width k w w' b
+theorem width_arr (k : Kind) (w w' : Width) (xs : List Item) : denote k (.arr w xs) = denote k (.arr w' xs) := denote_arr_width k w w' xs
+theorem width_map (k : Kind) (w w' : Width) (xs : List Item) : denote k (.map w xs) = denote k (.map w' xs) := denote_map_width k w w' xs
+theorem indef_arr (k : Kind) (w : Width) (xs : List Item) : denote k (.arr w xs) = denote k (.arrI xs) := denote_arr_indef k w xs
+theorem indef_map (k : Kind) (w : Width) (xs : List Item) : denote k (.map w xs) = denote k (.mapI xs) := denote_map_indef k w xs
+theorem chunked_tstr (k : Kind) (w : Width) (cs : List Chunk) : denote k (.tstr w (chunksVal cs)) = denote k (.tstrI cs) := denote_tstr_chunked k w cs
+theorem chunked_bstr (k : Kind) (w : Width) (cs : List Chunk) : denote k (.bstr w (chunksVal cs)) = denote k (.bstrI cs) := denote_bstr_chunked k w cs
+
+/-- a member whose key the schema does not know is ignored, whatever value it carries and
+    wherever in the map it stands -/
+theorem unknown_member_ignored (fs : List Field) (w w' : Width) (pre post : List (Item × Item)) (kI vI : Item) (key : Int)
+    (hk : intOf kI = some key) (hun : fs.find? (fun f => f.key == key) = none) :
+    denote (.struct fs) (.map w (flat (pre ++ (kI, vI) :: post))) = denote (.struct fs) (.map w' (flat (pre ++ post))) :=
+  denote_map_unknown fs w w' pre post kI vI key hk hun
+
+/-- the order of the members of a map (with pairwise different keys) is irrelevant -/
+theorem member_order_irrelevant (fs : List Field) (w w' : Width) (ps ps' : List (Item × Item)) (hp : ps.Perm ps')
+    (hnd : (ps.map keyOfPair).Nodup) :
+    denote (.struct fs) (.map w (flat ps)) = denote (.struct fs) (.map w' (flat ps')) :=
+  denote_map_perm fs w w' ps ps' hp hnd
+
+/-- rewriting inside the elements of an array -/
+theorem nested_array (ek : Kind) (w w' : Width) (xs xs' : List Item)
+    (h : AllRel (fun i i' => denote ek i = denote ek i') xs xs') :
+    denote (.arr ek) (.arr w xs) = denote (.arr ek) (.arr w' xs') := denote_arr_congr ek w w' xs xs' h
+
+/-- rewriting inside member values (each at its member's kind) and re-encoding keys -/
+theorem nested_members (fs : List Field) (w w' : Width) (ps ps' : List (Item × Item))
+    (h : AllRel (fun p p' => intOf p.1 = intOf p'.1 ∧
+        ∀ key f, intOf p.1 = some key → fs.find? (fun f => f.key == key) = some f → denote f.kind p.2 = denote f.kind p'.2) ps ps') :
+    denote (.struct fs) (.map w (flat ps)) = denote (.struct fs) (.map w' (flat ps')) := denote_map_congr fs w w' ps ps' h
+
+/-! Non-vacuity: a storage-hints map written canonically (`hintsA`), and the same data written with
+    an indefinite map, the first two members swapped, 8-byte heads and an unknown member (key -7)
+    carrying a tagged indefinite array with a float and an empty chunked string (`hintsB`): both are
+    well-formed, they have the same denotation – obtained here by chaining the rewrite theorems, not
+    by evaluation – and the reader returns the same struct for both. -/
+def psA : List (Item × Item) := [(.uint .imm 0, .uint .w4 0xffffffff), (.uint .imm 1, .uint .w1 200),
+  (.uint .imm 2, .uint .imm 3), (.uint .imm 3, .uint .imm 1)]
+/-- heads widened -/
+def psW : List (Item × Item) := [(.uint .w1 0, .uint .w8 0xffffffff), (.uint .imm 1, .uint .w8 200),
+  (.uint .imm 2, .uint .w4 3), (.uint .w8 3, .uint .w2 1)]
+def unknownK : Item := .nint .imm 6
+def unknownV : Item := .tag .w2 55799 (.arrI [.f16 0x3c00, .tstrI []])
+def psS : List (Item × Item) := [(.uint .imm 1, .uint .w8 200), (.uint .w1 0, .uint .w8 0xffffffff),
+  (.uint .imm 2, .uint .w4 3), (.uint .w8 3, .uint .w2 1)]
+def hintsA : Item := .map .imm (flat psA)
+def hintsB : Item := .mapI (flat ([(Item.uint .imm 1, Item.uint .w8 200)] ++ (unknownK, unknownV) ::
+  [(.uint .w1 0, .uint .w8 0xffffffff), (.uint .imm 2, .uint .w4 3), (.uint .w8 3, .uint .w2 1)]))
+
+theorem hints_wf : hintsA.WF ∧ hintsB.WF := by
+  refine ⟨?_, ?_⟩ <;>
+    simp [hintsA, hintsB, psA, unknownK, unknownV, flat, Item.WF, Item.WFList, Width.fits, Width.bound, chunksWF]
+
+open CdnsVerif.Model.Structs in
+theorem hints_same : denote storageHints hintsA = denote storageHints hintsB := by
+  have hfs : storageHints = .struct [.mk 0 (.uint 32) true, .mk 1 (.uint 32) true, .mk 2 (.uint 8) true, .mk 3 (.uint 8) true] := rfl
+  rw [hfs]
+  -- 1. widen the heads of keys and values (congruence + width lemmas)
+  have s1 := nested_members [.mk 0 (.uint 32) true, .mk 1 (.uint 32) true, .mk 2 (.uint 8) true, .mk 3 (.uint 8) true] .imm .w1 psA psW
+    (.cons ⟨rfl, fun _ f _ _ => width_uint f.kind _ _ _⟩ (.cons ⟨rfl, fun _ f _ _ => width_uint f.kind _ _ _⟩
+      (.cons ⟨rfl, fun _ f _ _ => width_uint f.kind _ _ _⟩ (.cons ⟨rfl, fun _ f _ _ => width_uint f.kind _ _ _⟩ .nil))))
+  -- 2. swap the first two members
+  have s2 := member_order_irrelevant [.mk 0 (.uint 32) true, .mk 1 (.uint 32) true, .mk 2 (.uint 8) true, .mk 3 (.uint 8) true] .w1 .w1 psW psS
+    (List.Perm.swap _ _ _) (by decide)
+  -- 3. insert the unknown member behind the first one
+  have s3 := unknown_member_ignored [.mk 0 (.uint 32) true, .mk 1 (.uint 32) true, .mk 2 (.uint 8) true, .mk 3 (.uint 8) true] .w1 .w1
+    [(Item.uint .imm 1, Item.uint .w8 200)] [(.uint .w1 0, .uint .w8 0xffffffff), (.uint .imm 2, .uint .w4 3), (.uint .w8 3, .uint .w2 1)]
+    unknownK unknownV (-7) rfl rfl
+  -- 4. make the map indefinite
+  have s4 := indef_map (.struct [.mk 0 (.uint 32) true, .mk 1 (.uint 32) true, .mk 2 (.uint 8) true, .mk 3 (.uint 8) true]) .w1
+    (flat ([(Item.uint .imm 1, Item.uint .w8 200)] ++ (unknownK, unknownV) ::
+      [(.uint .w1 0, .uint .w8 0xffffffff), (.uint .imm 2, .uint .w4 3), (.uint .w8 3, .uint .w2 1)]))
+  exact s1.trans (s2.trans (s3.symm.trans s4))
+
+open CdnsVerif.Model.Structs in
+example : denote storageHints hintsA = some (.record [(0, .num 0xffffffff), (1, .num 200), (2, .num 3), (3, .num 1)]) := by rfl
+
+open CdnsVerif.Model.Structs in
+example (fuel : Nat) (h : 40 ≤ fuel) (r₁ r₂ : Bytes) :
+    ((readVal fuel storageHints).run (hintsA.enc ++ r₁)).map (·.1) = ((readVal fuel storageHints).run (hintsB.enc ++ r₂)).map (·.1) :=
+  equivalent_encodings_read_equal storageHints hintsA hintsB _ hints_wf.1 hints_wf.2 (by rfl) hints_same fuel
+    (Nat.le_trans (by decide) h) (Nat.le_trans (by decide) h) r₁ r₂
 
 end CdnsVerif.Props.C08
